@@ -211,6 +211,15 @@ class Evaluator:
                 return l * r
             if isinstance(l, bool) or isinstance(r, bool) or not (isinstance(l, int) and isinstance(r, int)):
                 if not (isinstance(l, (int, bool)) and isinstance(r, (int, bool))):
+                    plain = (int, float, complex, str, bytes, bytearray, list, tuple, type(None))
+                    if isinstance(l, plain) and isinstance(r, plain) and type(e.op) in (ast.Add, ast.Sub, ast.Mult, ast.Mod, ast.FloorDiv, ast.Div, ast.BitXor, ast.BitAnd, ast.BitOr, ast.LShift, ast.RShift, ast.Pow):
+                        pyops = {ast.Add: operator.add, ast.Sub: operator.sub, ast.Mult: operator.mul, ast.Mod: operator.mod, ast.FloorDiv: operator.floordiv, ast.Div: operator.truediv, ast.BitXor: operator.xor, ast.BitAnd: operator.and_, ast.BitOr: operator.or_, ast.LShift: operator.lshift, ast.RShift: operator.rshift, ast.Pow: operator.pow}
+                        if isinstance(e.op, (ast.Mult, ast.Pow, ast.LShift)) and any(isinstance(x, int) and not isinstance(x, bool) and abs(x) > 1 << 20 for x in (l, r)) and not (isinstance(l, int) and isinstance(r, int)):
+                            raise Unsupported("huge repetition / exponent")
+                        try:
+                            return pyops[type(e.op)](l, r)
+                        except (TypeError, ValueError, ZeroDivisionError, OverflowError) as ex:
+                            raise PyRaise(type(ex).__name__)
                     raise Unsupported("binary operator on non-integers")
             ops = {ast.Add: operator.add, ast.Sub: operator.sub, ast.Mult: operator.mul, ast.BitXor: operator.xor, ast.BitAnd: operator.and_, ast.BitOr: operator.or_, ast.LShift: operator.lshift, ast.RShift: operator.rshift, ast.Pow: operator.pow, ast.FloorDiv: operator.floordiv, ast.Mod: operator.mod}
             if isinstance(e.op, (ast.Pow, ast.LShift)) and (not isinstance(r, int) or r < 0 or r > 4096):
@@ -415,6 +424,12 @@ class Evaluator:
             if isinstance(r, (tuple, list, str)):
                 res = any(x is l or self._eq(x, l) for x in r) if not isinstance(r, str) else (l in r)
                 return res if isinstance(op, ast.In) else not res
+            if isinstance(r, (dict, set, frozenset, bytes)) and not isinstance(l, Record):
+                try:
+                    res = l in r
+                except TypeError:
+                    raise PyRaise("TypeError")
+                return res if isinstance(op, ast.In) else not res
             raise Unsupported("membership in non-sequence")
         if isinstance(l, Record) or isinstance(r, Record):
             if self.record_compare is None:
@@ -424,6 +439,8 @@ class Evaluator:
             try:
                 return _CMP[type(op)](l, r)
             except TypeError as ex:
+                if all(isinstance(x, (int, float, complex, str, bytes, bytearray, list, tuple, dict, set, frozenset, type(None))) for x in (l, r)):
+                    raise PyRaise("TypeError")  # what Python itself raises for these two concrete values
                 raise Unsupported(f"comparison failed: {ex}")
         raise Unsupported(f"comparison {type(op).__name__}")
 
